@@ -89,6 +89,15 @@ Theorem C19_failed_nacks_once : forall O, (forall k, or_hs O k <> 0) ->
 Proof. exact tg_failed_nacks_once. Qed.
 Print Assumptions C19_failed_nacks_once.
 
+(* the NoDup hypothesis above follows from pairwise distinct ids of the submitted messages *)
+Theorem C19_distinct_ids : forall O, (forall k, or_hs O k <> 0) ->
+  forall n evs s' tr,
+  Forall tg_app_only evs ->
+  tg_steps O (tg_new_session TgDtls TgClient n) evs = (s', tr) ->
+  NoDup (tg_send_ids evs) -> NoDup (tg_dcon_ids (tg_outs tr)).
+Proof. exact tg_distinct_ids. Qed.
+Print Assumptions C19_distinct_ids.
+
 (* at the latest when the handshake is abandoned or the session released (both close the
    socket) nothing is queued any more and every accepted Confirmable has been NACKed *)
 Theorem C19_closed_all_nacked : forall O, (forall k, or_hs O k <> 0) ->
